@@ -136,3 +136,16 @@ package repository
 //@ func LocalStorage.RemoveAll
 //@   modifies storageWiped
 //@   ensures result == nil ==> storageWiped
+
+// ---- files of the local storage (C19: the lock file) -------------------------------------------------------
+// storageRemoves / storageCreates count the files removed from / created in the local storage; lastRemoved and
+// lastCreated name the last one. Opening and reading change nothing.
+//@ ghost var storageRemoves int
+//@ ghost var lastRemoved string
+//@ ghost var storageCreates int
+//@ ghost var lastCreated string
+// (the file operations themselves are methods of go-billy's Basic interface: their contracts are in
+// /verif/contracts/stdlib.contracts and refer to the ghost variables above)
+//@ func RepoStorage.LocalStorage
+//@   modifies nothing
+//@   ensures result != nil
